@@ -1,5 +1,5 @@
 (* C20 — event routing: every subscriber of an id gets each event once, in order. Statements only. *)
-From Lospan Require Import Base.Bytes Model.Router Spec.AbsRouter Proof.RouterProof.
+From Lospan Require Import Base.Bytes Model.Router Spec.AbsRouter Proof.RouterProof Proof.StalledProof.
 
 (* For EVERY sequence of subscribe / unsubscribe / publish operations over any identifiers and every
    subscription c (numbered by creation): what c has received is exactly the events published for
@@ -16,5 +16,18 @@ Theorem C20_table_well_formed :
   forall ops, wf (rrun ops).
 Proof. exact routed_channels_open. Qed.
 
+(* "... to every current subscriber of that identifier THAT KEEPS READING": some subscriptions (stalled) have stopped reading; their
+   channel takes events until it holds cap of them, after which a publication waits for it in vain and goes on (rstep_s, the
+   router of Model/Router.v otherwise). For every operation sequence, every set of stalled subscriptions and every capacity: the
+   routing table and the closed flags are those of the router in which everybody reads, every subscription that keeps reading has
+   received exactly the events published for its identifier between its Subscribe and its Unsubscribe, once each, in order - a
+   subscriber that stalls costs nobody else an event - and a stalled one holds the first cap of its events. *)
+Theorem C20_stalled_subscribers_cost_nobody_else :
+  forall (stalled : N -> bool) (cap : nat) ops,
+    r_routes (rrun_s stalled cap ops) = r_routes (rrun ops) /\
+    (forall c, chan_closed (rrun_s stalled cap ops) c = chan_closed (rrun ops) c) /\
+    (forall c, chan_q (rrun_s stalled cap ops) c = if stalled c then firstn cap (expected ops 0 None c) else expected ops 0 None c).
+Proof. exact stalled_subscribers_cost_nobody_else. Qed.
 Print Assumptions C20_delivery.
+Print Assumptions C20_stalled_subscribers_cost_nobody_else.
 Print Assumptions C20_table_well_formed.
